@@ -247,7 +247,9 @@ int nv_pthread_join(pthread_t h, void** ret)
 }
 int nv_clock_gettime(clockid_t, struct timespec* ts)
 {
-  long ms = 5000 + clockCalls * tickMs; ++clockCalls; ts->tv_sec = ms / 1000; ts->tv_nsec = (ms % 1000) * 1000000L; return 0;
+  // readings taken while the pool is being constructed do not advance the virtual clock (sched_clock_frozen, future.cpp): the model's
+  // constructor (mkPool) has no clock step, and a constructor that initialises `_idleResetTime` from the clock (harmless C10-h3 / -h6) keeps every later reading
+  long ms = 5000 + clockCalls * tickMs; if(!sched_clock_frozen()) ++clockCalls; ts->tv_sec = ms / 1000; ts->tv_nsec = (ms % 1000) * 1000000L; return 0;
 }
 void nv_yield(const char* kind, const volatile void* p)
 {
